@@ -2,7 +2,7 @@
 import os, json, time, hashlib, re, subprocess, sys
 
 VERIF = os.path.dirname(os.path.dirname(os.path.dirname(os.path.abspath(__file__))))
-EVID = os.path.join(VERIF, "evidence")
+EVID = os.environ.get("AXV_EVIDENCE_DIR", os.path.join(VERIF, "evidence"))
 FINDINGS = os.path.join(VERIF, "findings", "known_findings.jsonl")
 
 # Assumptions every check rests on (DESIGN.md section 6); units add their own
@@ -81,7 +81,8 @@ def finish(prop, tier, seed, obligations, t0, unit_info, level_if_all="proof", r
             # a known finding may name a characterisation obligation that must still hold (DESIGN.md section 8)
             ch = rec.get("requires_discharged")
             if ch:
-                chs = [x for x in obligations if x["id"] == ch.replace("{id}", o["id"])]
+                chid = ch.replace("{id}", o["id"]).replace("{base}", "|".join(o["id"].split("|")[:3]))
+                chs = [x for x in obligations if x["id"] == chid]
                 if chs and all(x["status"] in ("discharged", "bounded-discharged") for x in chs):
                     known_hits.append((o, rec))
                 else:
@@ -106,8 +107,11 @@ def finish(prop, tier, seed, obligations, t0, unit_info, level_if_all="proof", r
         suffix = "" if payload.get("failing_input") else " no-failing-input-found"
         print("VIOLATION property=%s replay=%s%s" % (prop, path, suffix))
         code = 1
-    if code == 0 and undecided:
-        for o in undecided[:20]:
+    undecided_new = [o for o in undecided if not o.get("expected_undecided")]
+    for o in [o for o in undecided if o.get("expected_undecided")][:0]:
+        pass
+    if code == 0 and undecided_new:
+        for o in undecided_new[:20]:
             print("UNDECIDED: property=%s %s %s" % (prop, o["id"], (o.get("detail") or "")[:200].replace("\n", " ")))
         code = 2
     n_ob = len(mine)
@@ -136,6 +140,8 @@ def finish(prop, tier, seed, obligations, t0, unit_info, level_if_all="proof", r
             level_if_all, len(failed), len(known_hits), len(undecided), len(bounded)) if not all_ok else ""),
         bounded_stand_ins=[dict(id=o["id"], bound=o.get("bound")) for o in bounded][:50],
         known_finding_ids=[o["id"] for (o, _r) in known_hits][:200],
+        undecided_ids=[dict(id=o["id"], expected=bool(o.get("expected_undecided")), why=(o.get("detail") or "")[:160]) for o in undecided][:100],
+        cache_hits=sum(1 for o in mine if o.get("cached")),
         exhaustive=False,
     )
     if extra_cov:
